@@ -299,27 +299,30 @@ theorem lang_resolved (f : Flags) (p s : Bytes) :
     fileLang f p s ≠ .auto ∧ stdinLang f p s ≠ .auto :=
   ⟨fileLang_ne_auto f p s, stdinLang_ne_auto f p s⟩
 
-/-- …so with parser/printer flags on the command line `syntax.Variant` never panics… -/
+/-- …so `syntax.Variant` never panics, with flags or with EditorConfig properties — including
+    `shell_variant = auto` (repaired in /repo by 349239f; it used to panic) — for every detected
+    language `l ≠ auto`. -/
+theorem no_panic (f : Flags) (e : Entry) (l : Lang) (hl : l ≠ .auto) :
+    resolveOpts f e l ≠ none := by
+  unfold resolveOpts
+  split
+  · exact propsOptions_isSome l _ hl
+  · simp
+
+/-- With parser/printer flags no hypothesis on the language is needed. -/
 theorem no_panic_flags (f : Flags) (e : Entry) (l : Lang) (h : useEC f = false) :
     resolveOpts f e l ≠ none := by
   rw [resolveOpts_flags f e l h]; simp
 
-/-- …and in EditorConfig mode it panics exactly when the section says `shell_variant = auto`
-    (genuine defect, replayed from corpus/C36-known.txt). -/
-theorem panic_iff_shell_variant_auto (f : Flags) (e : Entry) (p s : Bytes) (h : useEC f = true) :
-    resolveOpts f e (fileLang f p s) = none ↔
-      pget (propsFor e (fileLang f p s)) (asc "shell_variant") = asc "auto" := by
-  unfold resolveOpts
-  simp only [h, ↓reduceIte]
-  rw [propsOptions_none_iff _ _ (fileLang_ne_auto f p s), langOfName_auto]
+/-- No step of a run on a path or on stdin panics in `resolveOpts`. -/
+theorem no_panic_run (f : Flags) (e : Entry) (p s : Bytes) :
+    resolveOpts f e (fileLang f p s) ≠ none ∧ resolveOpts f e (stdinLang f p s) ≠ none :=
+  ⟨no_panic f e _ (fileLang_ne_auto f p s), no_panic f e _ (stdinLang_ne_auto f p s)⟩
 
-/-- The statement "shfmt never panics on EditorConfig input" is false of the model. -/
-def no_panic_statement : Prop :=
-  ∀ (f : Flags) (e : Entry) (l : Lang), l ≠ .auto → resolveOpts f e l ≠ none
-
-theorem no_panic_counterexample : ¬ no_panic_statement := by
-  intro h
-  exact h {} { path := asc "a.sh", pBash := [(asc "shell_variant", asc "auto")] } .bash (by decide) (by decide)
+/-- `shell_variant = auto` keeps the detected language (and counts as a valid setting). -/
+theorem shell_variant_auto_keeps (l : Lang) (hl : l ≠ .auto) :
+    (propsOptions l [(asc "shell_variant", asc "auto")]).map (fun r => (r.1.lang, r.2)) = some (l, true) := by
+  cases l <;> first | exact absurd rfl hl | decide
 
 /-! ## the decision tables, stated outright -/
 
